@@ -133,6 +133,12 @@ def run_correct(case, ctx):
             dk = np.abs(a[k] - b).max()
             ctx.check(dk <= 8 * EPS * (1 + np.abs(b).max()), f'system_matrices_stacked_differs:{nm}', lambda: f'row {k}: {dk:.3e}')
     x_unit = T_int @ d_out
+    if not wa:
+        # "any correction": also one far beyond the ladder (kilometres, degrees)
+        for big in (20.0, -7.0):
+            far = ctx.sut(em.correct_pva, pva, x_unit * big)
+            ctx.check(far.alt == pva.alt and far.VD == pva.VD, 'correction_changed_vertical',
+                      lambda: f'correction x{big}: alt {pva.alt!r}->{far.alt!r} VD {pva.VD!r}->{far.VD!r}')
     res_own, res_lib = [], []
     Rr = 6.4e6
     for s in LADDER:
